@@ -468,6 +468,9 @@ func (s *Server) serveHTTP(w http.ResponseWriter, r *http.Request) (int, error) 
 		vhost.TLS.ClientAuth != tls.NoClientCert &&
 		strings.ToLower(r.TLS.ServerName) != strings.ToLower(hostname) {
 		r.Close = true
+		// (r is the handler's copy of the request; the server closes
+		// the connection when the response says so)
+		w.Header().Set("Connection", "close")
 		log.Printf("[ERROR] %s - strict host matching: SNI (%s) and HTTP Host (%s) values differ",
 			vhost.Addr, r.TLS.ServerName, hostname)
 		return http.StatusForbidden, nil
